@@ -547,8 +547,9 @@ End Handler.
    is open every command other than EXEC / DISCARD / MULTI / WATCH is queued, so "another client's
    write" can only be a command executed between WATCH and MULTI.  WATCH stores the value found under
    the key ([read_key], any type; an expired key reads as absent: set_time evicts before every command)
-   and EXEC compares stored values.  As repaired (C05-executor-rewatch): WATCH of a key that is already
-   watched keeps the FIRST snapshot.  Generic in the executor's ordinary commands [exec_plain]. *)
+   and EXEC compares stored values.  As repaired (C05-executor-rewatch): watched_keys keeps, per key,
+   what EVERY WATCH of it saw (the model: one entry per WATCH and key named; the code stores consecutive
+   equal snapshots once, which EXEC cannot tell apart).  Generic in the executor's ordinary commands [exec_plain]. *)
 Section ExecutorTx.
   Variable St : Type.
   Variable cmd : Type.
@@ -562,18 +563,15 @@ Section ExecutorTx.
     x_st : St;
     x_in : bool;                      (* in_transaction *)
     x_queue : list cmd;               (* queued_commands *)
-    x_watched : list (bytes * V)      (* watched_keys: at most one entry per key *)
+    x_watched : list (bytes * V)      (* watched_keys: (key, value seen by a WATCH of it) *)
   }.
   Definition x_init (s : St) : xstate := mkX s false [] [].
 
   Fixpoint x_has (k : bytes) (w : list (bytes * V)) : bool :=
     match w with [] => false | (k', _) :: t => bytes_eqb k k' || x_has k t end.
   (* execute_watch *)
-  Fixpoint x_watch (s : St) (w : list (bytes * V)) (ks : list bytes) : list (bytes * V) :=
-    match ks with
-    | [] => w
-    | k :: t => x_watch s (if x_has k w then w else w ++ [(k, read_key s k)]) t
-    end.
+  Definition x_watch (s : St) (w : list (bytes * V)) (ks : list bytes) : list (bytes * V) :=
+    w ++ map (fun k => (k, read_key s k)) ks.
   (* a queued command when EXEC replays it: the transaction is closed by then; UNWATCH finds nothing *)
   Definition x_exec1 (s : St) (c : cmd) : St * resp :=
     match kind c with
